@@ -220,7 +220,7 @@ func suiteEnv(c *Ctx) error {
 			envHex[j] = hx(e)
 		}
 		replay := map[string]interface{}{"envp_hex": envHex, "envp": cse.envp, "hardened": hardened}
-		nv := len(c.Res.Violations)
+		nv := c.Raised
 		c.Sample(map[string]interface{}{"envp": cse.envp, "hardened": hardened})
 
 		// ---- property oracle on the REAL output (independent of the Lean model) ----
@@ -256,7 +256,7 @@ func suiteEnv(c *Ctx) error {
 			}
 			c.Violate("C15", cls, fmt.Sprintf("unrelated entries changed: want %q got %q", wantPass, gotPass), replay)
 		}
-		if !cse.malformed && len(c.Res.Violations) == nv {
+		if !cse.malformed && c.Raised == nv {
 			lines = append(lines, "env\t"+hxList(environ))
 			idx = append(idx, i)
 		}
